@@ -33,6 +33,7 @@ CLAIMED = {
          'implementation for a seeded sample of ids (quick) / all ~600 ids x both providers (thorough) at every transition '
          '-1s/0/+1s, in gaps and folds. Mixed-zone lists/periods and zoned absolute TRIGGER are decide witnesses '
          '(recorded findings).',
+         'vDDDLists.from_ical (no zone) and vDDDLists.to_ical are regenerated from the source by tools/py2lean.py and proved equal to the list structure of the hand model (body_vDDDLists_from_ical, body_vDDDLists_to_ical). '
          'Trusted: Lean kernel; tools/extract.py (add names, datetime names); hand model of TZID derivation and '
          'vDatetime.to_ical/from_ical tied by correspondence; provider laws not provable (checked); the seconds<->calendar conversion is proved total and exact on '
          'years 1-9999 (Lemmas/Civil.lean: toDays_ofDays, ofSec_isSome_iff).',
